@@ -61,6 +61,8 @@ STATUS = {
     'any-error-418': lambda codes: 418 if any(codes) else 200,
     'first-code-table': lambda codes: {0: 200, -32601: 404, -32700: 400, -32600: 422, 1234: 409}.get(codes[0], 500),
     'success-202': lambda codes: 202 if not any(codes) else 207,
+    # legal status codes that have no name in http.HTTPStatus
+    'odd-statuses': lambda codes: 299 if not any(codes) else 520,
 }
 PATHS = ['/rpc', '/api', '/api/v1']
 
@@ -148,6 +150,9 @@ def gen_cases(ctx):
         for mi, ct in enumerate(MEDIA):
             for bname in ('call', 'mixed', 'notif', 'parse', 'perr'):
                 yield dict(status='default', path='/api', media=mi, body=bname, endpoint='', dct=dct)
+    for order in ('ab', 'ba'):
+        for sub in (False, True):
+            yield dict(part='two', integration='flask', order=order, sub=sub)
     for integration in ('werkzeug', 'flask'):
         for kinds in (('call', 'call'), ('call', 'notif')):
             K = 8
@@ -337,7 +342,63 @@ def run_seq_changing(case, rec):
     return tuple(obs)
 
 
+def run_two_extensions(case, rec):
+    """two extension objects live in one process (two blueprints / two applications), both constructed before either is initialised:
+    each serves its own methods on its own url"""
+    import flask
+    from aiohttp import web
+    from pjrpc.server.integration import aiohttp as ia
+    from pjrpc.server.integration import flask as ifl
+    kind = case['integration']
+    obs = []
+    if kind == 'flask':
+        a, b = ifl.JsonRPC('/a'), ifl.JsonRPC('/b')
+        if case.get('sub'):
+            a.add_endpoint('/x')
+            b.add_endpoint('/y')
+        for rpc, tag in ((a, 'A'), (b, 'B')):
+            rpc.dispatcher.add((lambda t: (lambda: t))(tag), name='who')
+            rpc.dispatcher.add((lambda t: (lambda: t))(tag), name='only_' + tag.lower())
+        apps = {}
+        for rpc, tag in ((a, 'A'), (b, 'B')) if case['order'] == 'ab' else ((b, 'B'), (a, 'A')):
+            app = flask.Flask('two_' + tag)
+            try:
+                rpc.init_app(app)
+            except Exception as e:   # noqa
+                rec.violation('C18:flask:an extension object cannot be initialised while another one exists', dict(case, app=tag), expected='init_app succeeds', observed=repr(e)[:300])
+                return ('init-failed',)
+            apps[tag] = app.test_client()
+        for tag, path in (('A', '/a'), ('B', '/b')):
+            for method, want in (('who', tag), ('only_' + tag.lower(), tag), ('only_' + ('b' if tag == 'A' else 'a'), None)):
+                r = apps[tag].post(path, data=json.dumps({'jsonrpc': '2.0', 'id': 1, 'method': method}), headers={'Content-Type': 'application/json'})
+                rec.transitions += 1
+                try:
+                    doc = json.loads(r.get_data())
+                except Exception:   # noqa
+                    doc = {'status': r.status_code}
+                ok = (doc.get('result') == want) if want else (doc.get('error', {}).get('code') == -32601)
+                if not ok:
+                    rec.violation('C18:flask:one extension object answers with another extension object\'s dispatcher', dict(case, app=tag, method=method),
+                                  expected=want or -32601, observed=doc)
+                obs.append(ok)
+    rec.states += 1
+    rec.traces += 1
+    rec.nontrivial_n += 1
+    return tuple(obs)
+
+
 def run_case(case, rec):
+    from mc.harness.http import SetupFailed
+    try:
+        return _run_case(case, rec)
+    except SetupFailed as e:
+        rec.violation('C18:%s:the integration cannot be initialised' % case.get('integration'), case, expected='the application is set up', observed=str(e)[:300])
+        return ('setup-failed',)
+
+
+def _run_case(case, rec):
+    if case.get('part') == 'two':
+        return run_two_extensions(case, rec)
     if case.get('part') == 'threads':
         return run_threads_case(case, rec)
     if case.get('part') == 'seq':
@@ -475,7 +536,7 @@ def replay(doc):
     from mc.core import Recorder, jdump
     rec = Recorder()
     c = doc['case']
-    run_case({k: c[k] for k in ('part', 'seq', 'status', 'path', 'media', 'body', 'endpoint', 'endpoint_mode', 'target', 'dct', 'accept', 'integration', 'kinds', 'budget', 'shard', 'mount', 'hook', 'chunked', 'main_mw') if k in c}, rec)
+    run_case({k: c[k] for k in ('part', 'seq', 'status', 'path', 'media', 'body', 'endpoint', 'endpoint_mode', 'target', 'dct', 'accept', 'integration', 'kinds', 'budget', 'shard', 'mount', 'hook', 'chunked', 'main_mw', 'order', 'sub') if k in c}, rec)
     for v in rec.violations[:6]:
         print('VIOLATION-REPLAY signature=%s\n  expected=%s\n  observed=%s' % (v['signature'], jdump(v['expected'])[:300], jdump(v['observed'])[:300]))
     print('replayed: %d violation(s)' % len(rec.violations))
